@@ -118,11 +118,19 @@ class Gen:
             self.handle_paths.append(path)
             hid += 1
         self.world_path = None
+        if with_world and self.want_outer:
+            # a bigger tree with resources under the same paths, for mounting the handle's tree into
+            for ln in list(self.lines):
+                t = ln.split()
+                mirrored = [x.split()[1] for x in self.lines if x.startswith('tree2 ')]
+                if t[0] == 'tree' and r.random() < 0.7 and ('/' not in t[1] or t[1].rsplit('/', 1)[0] in mirrored):
+                    self.lines.append(f'tree2 {t[1]} {t[2]} {int(t[3]) + 50}')
+            self.lines.append('tree2 mnt map 99')
         if with_world:
             parent = self.pick(maps)
             name = self.pick(['w', 'world', 'level1'])
             self.world_path = (parent + '/' if parent else '') + name
-            if r.random() < 0.15:
+            if r.random() < 0.15 and not self.want_outer:
                 # composite key through maps that __setitem__ creates on the way (D12 / D22)
                 self.world_path = (parent + '/' if parent else '') + 'worlds/lvl/' + name
                 self.lines.append(f'tree {enc(self.world_path)} world composite')
@@ -234,12 +242,15 @@ class Gen:
         # descriptions that are not well formed (replacement / merging in World) are drawn now and then
         ill = not clean and r.random() < 0.4
         used = set()
+        self.items = []        # (label, class, identifier token of the entity | None for a processor)
+        auto = 0
         for _ in range(r.choice([0, 1, 1, 2, 3, 4, 5])):
             c = self.pick(self.procs)
             # the same exact type twice (the later one replaces the earlier one) now and then
             if c in used and not ill and r.random() < 0.7:
                 continue
             used.add(c)
+            self.items.append((len(self.items), c, None))
             self.lines.append(f'proc {enc(self.pick(self.cls_names[c]))} {self.args_tokens(clean)}')
         ids = set()
         for _ in range(r.choice([0, 1, 2, 2, 3, 4])):
@@ -255,6 +266,9 @@ class Gen:
             if idtok != '-':
                 ids.add(idtok)
             self.lines.append(f'ent {idtok}')
+            if idtok == '-':
+                auto += 1
+            ent_tok = f'i{auto}' if idtok == '-' else idtok
             comps = r.sample(self.comps, r.randint(0, min(3, len(self.comps))))
             # the same type twice in one create_entity call: only for classes that are not handlers
             # (a shadowed handler instance is dropped by the garbage collector, C10's subject)
@@ -262,23 +276,116 @@ class Gen:
             if ill and plain and r.random() < 0.5:
                 comps.insert(r.randint(0, len(comps)), self.pick(plain))
             for c in comps:
+                self.items.append((len(self.items), c, ent_tok))
                 self.lines.append(f'comp {enc(self.pick(self.cls_names[c]))} {self.args_tokens(clean)}')
+            while idtok == '-' and r.random() < 0.12:
+                # the same entity dictionary listed again (a prototype used several times)
+                auto += 1
+                for c in comps:
+                    self.items.append((len(self.items), c, f'i{auto}'))
+                self.lines.append('ent same')
 
     def steps(self):
-        """further loads of the same file against the same tree, with handles cleared / replaced"""
+        """further loads of the same file against the same tree, with handles cleared / replaced and
+        the map that holds the world handle mounted into / moved within / unmounted from a bigger tree"""
+        from harness import spec_loader
+        from harness.models.loader import Scenario
         r = self.rng
         hid = 100
-        paths = dict((p, None) for p in self.handle_paths)
-        hids = [int(ln.split()[3]) for ln in self.lines if ln.startswith('tree ') and ln.split()[2] == 'handle']
+        acct = spec_loader.TreeAccount(Scenario(self.lines))
+        hids = [int(ln.split()[3]) for ln in self.lines if ln.split()[0] in ('tree', 'tree2') and ln.split()[2] == 'handle']
+        fresh = ['levels', 'game', 'zone', 'hub', 'deep', 'area']
         for _ in range(r.randint(1, 3)):
             for _ in range(r.randint(0, 3)):
-                if hids and r.random() < 0.6:
-                    self.lines.append(f'step clear {self.pick(hids)}')
-                elif paths:
-                    self.lines.append(f'step replace {enc(self.pick(list(paths)))} {hid}')
-                    hids.append(hid)
-                    hid += 1
+                k = r.random()
+                st = None
+                if self.want_outer and k < 0.45:
+                    comps = acct.world_path.split('/')
+                    ips = ([] if acct.in_outer else ['-']) + [
+                        '/'.join(comps[:i]) for i in range(1, len(comps))
+                        if acct.tree.get('/'.join(comps[:i]), ('', 0))[0] == 'map']
+                    if acct.in_outer and r.random() < 0.35:
+                        st = ('unmount',)
+                    elif ips and fresh:
+                        key = fresh.pop(r.randrange(len(fresh)))
+                        mnt = acct.outer.items.get('mnt')
+                        into = acct.outer
+                        if isinstance(mnt, spec_loader.RMap) and r.random() < 0.3:
+                            key, into = 'mnt/' + key, mnt
+                        ip = self.pick(ips)
+                        obj = acct.root() if ip == '-' else acct.find(ip)
+
+                        def inside(m, seen=()):
+                            return m is into or any(isinstance(n, spec_loader.RMap) and id(n) not in seen
+                                                    and inside(n, seen + (id(n),)) for n in m.items.values())
+                        if not inside(obj):        # never a map into itself
+                            st = ('mount', ip, key)
+                elif hids and k < 0.75:
+                    st = ('clear', self.pick(hids))
+                else:
+                    paths = [p for p, (kind, _) in acct.tree.items() if kind == 'handle']
+                    if paths:
+                        st = ('replace', self.pick(paths), hid)
+                        hids.append(hid)
+                        hid += 1
+                if st is not None:
+                    acct.step(st)
+                    self.lines.append('step ' + ' '.join(enc(x) if isinstance(x, str) and i else str(x)
+                                                         for i, x in enumerate(st)))
             self.lines.append('step ' + self.pick(['reload', 'reload', 'load2']))
+
+    def reactions(self):
+        """callbacks of listed components / processors that act on the world being loaded"""
+        r = self.rng
+        handlers = [it for it in self.items if self.events[it[1]]]
+        if not handlers:
+            return
+        derived = {int(ln.split('base=')[1].split()[0]) for ln in self.lines if ln.startswith('cls ') and 'base=' in ln}
+        # classes whose instances may be removed / replaced by a reaction: they listen to nothing
+        # that is delivered to a set of listeners, and nothing derives from them
+        safe = [c for c in self.comps if set(self.events[c] or {}) <= {'on_add', 'on_remove'} and c not in derived]
+        ents = sorted({it[2] for it in self.items if it[2] is not None})
+        budget = [2]        # suspensions without a resumption the program has to make up for
+        fresh = [0]
+
+        def op():
+            k = r.random()
+            if k < 0.2:
+                if budget[0] > 0 and r.random() < 0.5:
+                    budget[0] -= 1
+                    return ['enable 0']
+                return ['enable 1']
+            if k < 0.4:
+                return ['enable 0', spawn(), 'enable 1']
+            if k < 0.6:
+                return [spawn()]
+            if k < 0.75:
+                return ['dispatch ' + self.pick(['on_update', 'on_update', 'nope'])]
+            if k < 0.88 and safe and ents:
+                return [f'remove {self.pick(ents)} {self.pick(safe)}']
+            if safe and ents:
+                return [f'add {self.pick(ents)} {self.pick(safe)}']
+            return [spawn()]
+
+        def spawn():
+            k = r.random()
+            if k < 0.15 and safe and ents:
+                return f'spawn {self.pick(ents)} ' + ','.join(map(str, r.sample(safe, r.randint(1, min(2, len(safe))))))
+            cs = ','.join(map(str, r.sample(self.comps, r.randint(1, min(3, len(self.comps))))))
+            if k < 0.5:
+                fresh[0] += 1
+                return f'spawn snew{fresh[0]} {cs}'
+            return f'spawn - {cs}'
+        n = 0
+        for label, cid, _ in r.sample(handlers, min(len(handlers), r.randint(1, 3))):
+            for meth in sorted(set(self.events[cid].values())):
+                if r.random() < 0.7:
+                    ops = [x for _ in range(r.randint(1, 3)) for x in op()]
+                    self.lines.append(f'react i{label} {meth} {self.pick([0, 0, 0, 1])} : ' + ' ; '.join(ops))
+                    n += 1
+        if n and r.random() < 0.3:
+            self.lines.append(f'react x0 {self.pick(["on_add", "added", "on_world_load", "both"])} 0 : '
+                              + ' ; '.join(x for _ in range(r.randint(1, 2)) for x in op()))
 
     def retry_steps(self):
         """the load fails; handle() is called again, with the cause repaired or not"""
@@ -323,6 +430,8 @@ class Gen:
         # constructor that raises on scripted calls
         self.with_raises = handle_mode and r.random() < 0.12
         self.late, self.late_used = None, False
+        self.want_outer = self.file_mode and self.intree and r.random() < 0.3
+        reactive = handle_mode and clean and not self.with_raises and r.random() < 0.15
         self.universe()
         self.tree(with_world=self.file_mode and self.intree)
         if self.file_mode and self.intree and clean and r.random() < 0.12:
@@ -330,10 +439,16 @@ class Gen:
             self.late = (parent + '/' if parent else '') + 'late'
         self.lines.append(f'mode {mode}')
         self.description(clean)
+        if reactive:
+            self.reactions()
         if self.late is not None or (self.with_raises and self.raising):
             self.retry_steps()
-        elif self.file_mode and self.intree and r.random() < (0.35 if clean else 0.1):
+        elif self.file_mode and self.intree and r.random() < (0.6 if self.want_outer else 0.35 if clean else 0.1):
             self.steps()
+        elif mode == 'dict' and r.random() < 0.4:
+            # the same description dictionary is used for a further load
+            for _ in range(r.randint(1, 2)):
+                self.lines.append('step ' + self.pick(['reload', 'reload', 'call']))
         elif handle_mode and not clean and r.random() < 0.4:
             self.lines.append('step call')
         self.rx_lines()
